@@ -202,7 +202,7 @@ def find_collision():
 
 COLLISION_REPLAY = r'''
 import sys, json
-sys.path.insert(0, "/verif")
+sys.path.insert(0, __VF_ROOT__)
 from vf.hprelude import *
 na, nb = json.loads(%r)
 def mk(qual_module, t):
@@ -244,7 +244,7 @@ def collision_result():
         res.update(final="discharged", msg="no two distinct names with equal sanitised images within the bound")
         return res
     env = dict(os.environ, PYTHONPATH=runner.PYPATH)
-    p = subprocess.run([runner.PY, "-c", COLLISION_REPLAY % json.dumps([na, nb])], capture_output=True, text=True, env=env, timeout=120)
+    p = subprocess.run([runner.PY, "-c", COLLISION_REPLAY.replace('__VF_ROOT__', repr(runner.ROOT)) % json.dumps([na, nb])], capture_output=True, text=True, env=env, timeout=120)
     out = None
     for ln in p.stdout.splitlines():
         if ln.startswith("VFOUT "):
@@ -264,7 +264,7 @@ def collision_result():
 # ------------------------------------------------------------------ (c) static closure cross-check
 CLOSURE = r'''
 import ast, builtins, sys, json, types
-sys.path.insert(0, "/verif")
+sys.path.insert(0, __VF_ROOT__)
 from vf import hlib
 from vf.hprelude import *
 %s
@@ -325,7 +325,7 @@ print("VFOUT " + json.dumps({"execs": len(hlib.EXECS), "problems": uniq[:40]}))
 
 def closure_result(executed_sigs, out_violations=None):
     env = dict(os.environ, PYTHONPATH=runner.PYPATH)
-    p = subprocess.run([runner.PY, "-c", CLOSURE % (PRELUDE, TYPES)], capture_output=True, text=True, env=env, timeout=300)
+    p = subprocess.run([runner.PY, "-c", CLOSURE.replace('__VF_ROOT__', repr(runner.ROOT)) % (PRELUDE, TYPES)], capture_output=True, text=True, env=env, timeout=300)
     out = None
     for ln in p.stdout.splitlines():
         if ln.startswith("VFOUT "):
